@@ -675,3 +675,38 @@ fn c10_t_rw_cancelled_writer_then_reader_woken() {
   assert!(wakes(0) == 0, "C10: a cancelled writer future was woken");
   std::mem::forget(rf);
 }
+
+fn actor_cancel_writer_then_release(a: sched::ActorId) {
+  if a.0 == 1 {
+    let f = unsafe { &mut *WFP.load(Relaxed) };
+    *f = None; // cancel the queued writer future
+  } else {
+    let g = unsafe { &mut *RGP.load(Relaxed) };
+    *g = None;
+  }
+}
+
+/// C10: a reader holds the lock, a writer future is queued (gating new readers), a blocking read()
+/// parks behind it; then the writer future is cancelled (never woken) and the last read guard is
+/// dropped: the parked reader must be woken and acquire. The two actors run once the reader is parked.
+#[kani::proof]
+#[kani::unwind(5)]
+fn c10_x_rw_parked_reader_after_cancelled_writer() {
+  let l_stack = HybridRwLock::new(0u8);
+  let l: &'static HybridRwLock<u8> = unsafe { &*(&l_stack as *const HybridRwLock<u8>) };
+  let mut held = l.try_read();
+  assert!(held.is_some(), "C10: try_read failed on a free lock");
+  let mut wf: Option<WFut> = Some(Box::pin(l.write_async()));
+  assert!(poll_with(wf.as_mut().unwrap().as_mut(), 0).is_pending(), "C10: write_async acquired while a read guard exists");
+  RGP.store(&mut held as *mut _, Relaxed);
+  WFP.store(&mut wf as *mut _, Relaxed);
+  sched::set_preempt_at(u32::MAX - 1); // the actors start only when the top thread is parked
+  sched::install(actor_cancel_writer_then_release, 2, 1);
+  sched::set_stuck_is_bug(true);
+  let r = l.read();
+  assert!(held.is_none(), "C10: a read acquired past a queued writer while the old reader still held the lock");
+  assert!(wakes(0) == 0, "C10: a cancelled writer future was woken");
+  kani::cover!(sched::started() == 2, "reader acquired after the cancel and the release");
+  std::mem::forget(r);
+  std::mem::forget(wf);
+}
